@@ -37,7 +37,10 @@ ChooseComboRx == /\ phase = "op" /\ "like" \in Ops /\ "rx" \in Ops
                  /\ pat' \in RxComboPats /\ rx' = RxFor(pat') /\ conn' \in {"and", "or"}
                  /\ phase' = "done"
 (* longer wildcard patterns: a one-character wildcard directly after a many-character one (`a*?`, `%__`) *)
-LongPats == { <<"a", "*", "?">>, <<"*", "?", "?">>, <<"*", "?", "a">>, <<"B", "*", "?", "?">>, <<"?", "*", "?">> }
+Q(n) == [i \in 1 .. n |-> "?"]
+LongPats == { <<"a", "*", "?">>, <<"*", "?", "?">>, <<"*", "?", "a">>, <<"B", "*", "?", "?">>, <<"?", "*", "?">>,
+              \* (many one-character wildcards: exactly the 80 characters of a long name, one too many for it, a prefix of them before `*`)
+              Q(80), <<"a">> \o Q(79), Q(81), Q(70) \o <<"*">>, Q(75) \o <<"*", "B">> }
 LikeOf(p) == [i \in 1 .. Len(p) |-> IF p[i] = "*" THEN "%" ELSE IF p[i] = "?" THEN "_" ELSE p[i]]
 ChooseLong == /\ phase = "op" /\ op' \in Ops \cap {"eq", "ne", "like", "notlike"}
               /\ \E p \in LongPats : pat' = (IF op' \in {"like", "notlike"} THEN LikeOf(p) ELSE p)
